@@ -74,10 +74,18 @@ class Result:
         case: JSON-able descriptor replayable by the property's replay(); msg: text."""
         self.violation_count += 1
         k = json.dumps(sig, sort_keys=True, default=str)
-        if k in self._vkeys or len(self.violations) >= MAX_VIOLATIONS_PER_SHARD:
+        v = {'sig': sig, 'case': case, 'msg': str(msg)[:2000]}
+        if k in self._vkeys:
+            for i, mine in enumerate(self.violations):
+                if json.dumps(mine['sig'], sort_keys=True, default=str) == k:
+                    if _case_size(v) < _case_size(mine):
+                        self.violations[i] = v
+                    break
+            return
+        if len(self.violations) >= MAX_VIOLATIONS_PER_SHARD:
             return
         self._vkeys.add(k)
-        self.violations.append({'sig': sig, 'case': case, 'msg': str(msg)[:2000]})
+        self.violations.append(v)
 
     def merge(self, other):
         self.evaluations += other.evaluations
@@ -91,8 +99,15 @@ class Result:
             if k not in self._vkeys:
                 self._vkeys.add(k)
                 self.violations.append(v)
-        if len(self.samples) < 6:
-            self.samples.extend(other.samples[:2])
+            else:   # keep the smallest case per signature, so the report does not depend on arrival order
+                for i, mine in enumerate(self.violations):
+                    if json.dumps(mine['sig'], sort_keys=True, default=str) == k:
+                        if _case_size(v) < _case_size(mine):
+                            self.violations[i] = v
+                        break
+        self.samples.extend(other.samples[:2])
+        if len(self.samples) > 64:
+            self.samples = sorted(self.samples, key=lambda c: json.dumps(c, sort_keys=True, default=str))[:32]
         self.states += other.states
         self.transitions += other.transitions
         self.traces += other.traces
@@ -101,6 +116,11 @@ class Result:
         if other.frontier_closed is not None:
             self.frontier_closed = other.frontier_closed if self.frontier_closed is None \
                 else (self.frontier_closed and other.frontier_closed)
+
+
+def _case_size(v):
+    j = json.dumps(v['case'], sort_keys=True, default=str)
+    return (len(j), j)
 
 
 # ---------------------------------------------------------------------------------------
@@ -192,6 +212,8 @@ def run_property(mod, tier='quick', seed=0, jobs=None, only_shards=None):
 def finish(mod, tier, seed, total, errors, wall, nshards, slowest):
     pid = mod.ID
     register = load_register()
+    total.violations.sort(key=lambda v: json.dumps(v['sig'], sort_keys=True, default=str))
+    total.samples = sorted(total.samples, key=lambda c: json.dumps(c, sort_keys=True, default=str))
     known_lines = {}
     unknown = []
     for v in total.violations:
